@@ -86,14 +86,34 @@ def coq_files():
     return [f for f in proj if f.endswith(".v")]
 
 
-def audit_sources():
-    """Grep audit: no Admitted/Axiom/... anywhere; Hypothesis/Variable only inside sections."""
+def dep_closure(prop):
+    """the .v files props/<prop>.v depends on (transitively), read off the `From HD Require` lines"""
+    seen, todo = set(), [os.path.join(COQ, "props", f"{prop}.v")]
+    while todo:
+        path = todo.pop()
+        if path in seen or not os.path.exists(path):
+            continue
+        seen.add(path)
+        src = strip_comments(open(path).read())
+        for m in re.finditer(r"From\s+HD\s+Require\s+(?:Import|Export)?\s*([^.]*(?:\.[A-Za-z0-9_]+[^.]*)*?)\.\s", src):
+            for mod in m.group(1).split():
+                if re.match(r"^[A-Za-z0-9_]+\.[A-Za-z0-9_.]+$", mod):
+                    todo.append(os.path.join(COQ, *mod.split(".")) + ".v")
+    return seen
+
+
+def audit_sources(prop=None):
+    """Grep audit of the property's dependency closure (all of coq/ when prop is None): no
+    Admitted/Axiom/...; Hypothesis/Variable only inside sections."""
     problems = []
+    closure = dep_closure(prop) if prop else None
     for root, _, files in os.walk(COQ):
         for f in files:
             if not f.endswith(".v"):
                 continue
             path = os.path.join(root, f)
+            if closure is not None and path not in closure:
+                continue
             src = strip_comments(open(path).read())
             for m in FORBIDDEN.finditer(src):
                 problems.append(f"{path}: forbidden token {m.group(0)!r}")
@@ -157,7 +177,8 @@ def proofs(prop):
     names = theorem_names(prop_file)
     info = {"obligations": len(names), "discharged": 0, "theorems": names, "failed": [],
             "assumptions": {}, "audit": [], "build_ok": False}
-    info["audit"] = audit_sources()
+    info["audit"] = audit_sources(prop)
+    info["audited_files"] = len(dep_closure(prop))
     ok, out = coq_make([f"props/{prop}.vo"])
     info["build_ok"] = ok
     if not ok:
@@ -506,6 +527,7 @@ def run_check(plugin, tier=None, replay=None):
 
     findings = known_findings(prop)
     reported = set()
+    known_idx = set()
 
     def report_monitor(i):
         c, o = cases[i], obss[i]
@@ -514,6 +536,7 @@ def run_check(plugin, tier=None, replay=None):
                 line = f"KNOWN-FINDING: property={prop} {f['what']}"
                 if line not in known_lines:
                     known_lines.append(line)
+                known_idx.add(i)
                 return
         small = plugin.shrink(c, "monitor") if not replay else c
         key = json.dumps(small, sort_keys=True, default=str)
@@ -533,12 +556,14 @@ def run_check(plugin, tier=None, replay=None):
         })
         violations.append((f"VIOLATION property={prop} replay={path}", path))
 
-    for i in monf[:8]:
+    for i in monf[:40]:
         report_monitor(i)
         if len(violations) >= 2:
             break
 
-    only_mism = [i for i in mism if i not in set(monf)]
+    # a disagreement between model and implementation is reported even when the same case was matched
+    # as a known finding (the known finding explains the monitor's verdict, not the disagreement)
+    only_mism = [i for i in mism if i not in set(monf) or i in known_idx]
     if only_mism and not violations:
         # correspondence broken but the monitor accepts: search the neighbourhood for a failing input
         i = only_mism[0]
